@@ -695,7 +695,7 @@ func (f *File) CopySampleData(w io.Writer, rs io.ReadSeeker, trak *TrakBox,
 			} else {
 				nrLeft := int(size)
 				nrRead := 0
-				for {
+				for nrLeft > 0 { // Nothing to read for a chunk part without bytes (it may lie at the very end of the file)
 					end := min(workLen, workPos+nrLeft)
 					n, err := rs.Read(workSpace[workPos:end])
 					if err != nil {
